@@ -180,6 +180,10 @@ host_fns! {
     t_v_iv(a: This<Value> => ThisAny, b: i64 => Int, c: Value => Any);
     t_i_4(a: This<i64> => ThisInt, b: Arc<String> => Str, c: u64 => UInt, d: f64 => Float, e: bool => Bool);
     t_oi_s(a: This<Option<i64>> => ThisOptInt, b: Arc<String> => Str);
+    k_i_ti(a: i64 => Int, b: This<i64> => ThisInt);
+    k_s_ts_i(a: Arc<String> => Str, b: This<Arc<String>> => ThisStr, c: i64 => Int);
+    k_vv_tv(a: Value => Any, b: Value => Any, c: This<Value> => ThisAny);
+    f_i_toi(_ftx: &FunctionContext => Ftx, a: i64 => Int, b: This<Option<i64>> => ThisOptInt);
     va(a: Arguments => Args);
     id1(a: Identifier => Ident);
     id_v(a: Identifier => Ident, b: Value => Any);
@@ -610,11 +614,11 @@ pub fn run(r: &mut Runner) {
                 let args: Vec<Arg> = (0..n).map(|i| consuming.get(i).copied().map(|p| if p == P::Ident { Arg::Ident("foo".into()) } else { sample(p) }).unwrap_or(Arg::Val(V::Int(99)))).collect();
                 fixed.push(HostCall { sig: si, recv: None, args, override_builtin: None });
             }
-            if consuming.first().map(is_this).unwrap_or(false) {
-                let rest: Vec<P> = consuming[1..].to_vec();
+            if let Some(tpos) = consuming.iter().position(is_this) {
+                let rest: Vec<P> = consuming.iter().enumerate().filter(|(i, _)| *i != tpos).map(|(_, p)| *p).collect();
                 for n in 0..=rest.len() + 1 {
                     let args: Vec<Arg> = (0..n).map(|i| rest.get(i).copied().map(|p| if p == P::Ident { Arg::Ident("foo".into()) } else { sample(p) }).unwrap_or(Arg::Val(V::Int(99)))).collect();
-                    let Arg::Val(rv) = sample(consuming[0]) else { unreachable!() };
+                    let Arg::Val(rv) = sample(consuming[tpos]) else { unreachable!() };
                     fixed.push(HostCall { sig: si, recv: Some(rv), args: args.clone(), override_builtin: None });
                     // mismatching receiver
                     fixed.push(HostCall { sig: si, recv: Some(V::List(vec![])), args, override_builtin: None });
